@@ -10,6 +10,8 @@ from harness.impl import call, Taps
 CFG = {
     'C07': dict(theorems=['Dlis.C07.copy_unique_reachable', 'Dlis.C07.reference_bytes', 'Dlis.C07.objref_bytes',
                           'Dlis.C07.origin_backfilled', 'Dlis.C07.origin_choice', 'Dlis.run_invariants',
+                          'Dlis.C07.accepted_references_resolve', 'Dlis.C07.foreign_reference_refused',
+                          'Dlis.C07.own_references_accepted', 'Dlis.C07.frame_channels_registered',
                           'Dlis.C18.logical_files_isolated']),
     'C09': dict(theorems=['Dlis.C09.generator_shape', 'Dlis.C09.header_fields', 'Dlis.C09.defining_origin_first',
                           'Dlis.C04.empty_set_no_record', 'Dlis.C04.fileHeader_parses', 'Dlis.run_invariants',
@@ -237,6 +239,8 @@ def run_prop(prop, tier):
                     f['key'] = 'rewrite:' + f['key']
     if prop == 'C07' and bres.ok:
         cross_reference_stream(chk, model, tier)
+    if prop in ('C07', 'C18'):
+        reference_histories(chk, model, bres, tier, prop)
     return finish(chk, bres, cfg['theorems'],
                   partial_note='The state machine abstracts attribute values to ok / rejected-early / rejected-late; its '
                                'tie to the code is the history correspondence.')
@@ -477,6 +481,69 @@ def oracle_references(chk, r):
         if problems:
             chk.fail('references:unresolved', r.case, f'logical file {li}: ' + '; '.join(problems[:5]))
     # the expected targets (the objects the user passed) are compared by the C05 fidelity oracle
+
+
+def reference_histories(chk, model, bres, tier, prop):
+    """write-time object checks: objects of 1..3 logical files, references assigned between them through the public
+    setters (frame -> channels, channel -> axis / long name / source, tool -> parts / channels, group -> objects / groups),
+    within and across logical files; what `write` answers vs `acceptWrite` of Model/Checks.lean, and, model-free, every
+    accepted file holds each reference's target in the holder's logical file"""
+    R = rng(prop, 'reference-histories')
+    n = 250 if tier == 'quick' else 2500
+    hs = [H.gen_ref_history(R) for _ in range(n)]
+    tmp = tempfile.mkdtemp(prefix='verif_refs_')
+    try:
+        dumps, meta = [], []
+        results = []
+        for i, h in enumerate(hs):
+            got, live = H.apply_ref_history(h, f'{tmp}/r.dlis')
+            data = open(f'{tmp}/r.dlis', 'rb').read() if got == 'ok' else None
+            results.append((got, data))
+        mreps = model.ask([H.chk_req(h) for h in hs]) if bres.ok else [None] * n
+        for i, (h, mrep, (got, data)) in enumerate(zip(hs, mreps, results)):
+            case = {'index': i, 'history': h}
+            cross = sum(1 for a in h['assigns'] for t in a['targets']
+                        if [o for o in h['ops'] if o['out'] == 'ok'][t]['lf'] != [o for o in h['ops'] if o['out'] == 'ok'][a['holder']]['lf'])
+            chk.case('reference-histories', nontrivial_key=('rh', i),
+                     sample={'n_lf': h['n_lf'], 'objects': len(h['ops']), 'references': sum(len(a['targets']) for a in h['assigns']),
+                             'across_logical_files': cross, 'write': got})
+            chk.count('refs:' + got.split(':')[0])
+            chk.count(f'refs:cross:{min(cross, 2)}')
+            if got.startswith('other:'):
+                chk.disagree('reference-histories:unexpected-refusal', case, got, str(mrep))
+                continue
+            if mrep is not None and mrep != got:
+                chk.disagree('reference-histories:write-checks', case, got, mrep)
+            # the property itself, model-free: an accepted file has no reference across logical files ...
+            if got == 'ok' and cross:
+                chk.fail('references:accepted-across-logical-files', case,
+                         f'{cross} reference(s) to objects of another logical file and the file is written')
+            if got == 'ok':
+                dumps.append(f"dump 8192 {cps('1')} {cps('REFS')} {hexs(data)}")
+                meta.append((case, h))
+        # ... and every reference in it names an object defined in the same logical file of the file as decoded
+        if bres.ok:
+            for (case, h), rep in zip(meta, model.ask(dumps)):
+                if not rep.startswith('ok'):
+                    chk.fail('references:unreadable', case, 'strict reader rejects the file')
+                    continue
+                recs = filegen.parse_dump(rep)
+                inv = decoded_inventory(recs)
+                acc = [o for o in h['ops'] if o['out'] == 'ok']
+                for a in h['assigns']:
+                    lf = acc[a['holder']]['lf']
+                    if lf >= len(inv):
+                        chk.fail('references:logical-file-missing', case, f'logical file {lf} not in the decoded file')
+                        break
+                    names = {(stype, nm) for (stype, _sn, objs) in inv[lf] for (nm, _o, _c) in objs}
+                    for t in a['targets']:
+                        want = (filegen.KINDS[acc[t]['kind']][1], acc[t]['name'])
+                        if want not in names:
+                            chk.fail('references:target-not-in-logical-file', case,
+                                     f'{a["attr"]} of object {a["holder"]} refers to {want}, which logical file {lf} of the '
+                                     f'written file does not define')
+    finally:
+        shutil.rmtree(tmp, ignore_errors=True)
 
 
 def cross_reference_stream(chk, model, tier, prop='C07'):
